@@ -445,7 +445,7 @@ PROPS['C13']['tie_functions'] = list(PROPS['C13']['tie_functions']) + ['Transfor
 PROPS['C06']['tie_functions'] = list(PROPS['C06']['tie_functions']) + ['Transform.conform7_31']
 PROPS['C02']['more_proof_modules'] = list(PROPS['C02'].get('more_proof_modules', [])) + ['GeodeVerif.Proofs.C02c']
 PROPS['C02']['required_theorems'] += ['beta_sphere', 'sigma_sphere', 'newtonMap_sphere', 'sphere_loop_exits_first_pass', 'grid2geo_sphere',
-                                      'sphere_inverse_of_forward', 'sphere_round_trip']
+                                      'sphere_inverse_of_forward', 'sphere_forward_of_inverse', 'sphere_round_trip']
 PROPS['C04']['more_proof_modules'] = list(PROPS['C04'].get('more_proof_modules', [])) + ['GeodeVerif.Proofs.C04b']
 PROPS['C04']['required_theorems'] += ['sphere_loop', 'vincdir_sphere', 'vincdir_sphere_end_point']
 PROPS['C05']['more_proof_modules'] = list(PROPS['C05'].get('more_proof_modules', [])) + ['GeodeVerif.Proofs.C05b']
